@@ -43,7 +43,7 @@ SAN_ENV = {
     "ASAN_OPTIONS": "abort_on_error=1:detect_leaks=0:"
                     "detect_stack_use_after_return=1:handle_abort=1",
     "UBSAN_OPTIONS": "print_stacktrace=1:halt_on_error=1",
-    "TSAN_OPTIONS": "halt_on_error=1:report_mutex_bugs=0:"
+    "TSAN_OPTIONS": "halt_on_error=1:report_mutex_bugs=0:report_destroy_locked=0:"
                     "second_deadlock_stack=1:exitcode=66",
 }
 
@@ -247,6 +247,19 @@ def build_harness(fl, name, sources=None, xtp=False, flags="", libs=""):
     dep = (" | " + xa) if xtp else ""
     lines.append("build %s: link %s%s" % (name, " ".join(objs), dep))
     return _ninja(fl, name, lines, name, "harness " + name)
+
+
+def build_preload(name="vfdelay", src=None):
+    """LD_PRELOADable hook run-time (uninstrumented on purpose: it must not add
+    synchronisation visible to TSan). Flavour independent."""
+    src = src or os.path.join(VERIF, "harness", "hookrt", "delay.cc")
+    lines = ["rule so",
+             "  command = g++ -std=c++17 -O1 -g1 -fPIC -shared -o $out $in "
+             "-lpthread",
+             "build lib%s.so: so %s" % (name, src)]
+    os.makedirs(flavour_dir("fast"), exist_ok=True)
+    return _ninja("fast", "preload_" + name, lines, "lib%s.so" % name,
+                  "preload " + name)
 
 
 # ----------------------------------------------------------------------------
